@@ -340,7 +340,8 @@ def path_feature(p):
 T1 = tsfmt.instant_of("2017-01-01T00:00:00Z")
 T2 = tsfmt.instant_of("2017-01-01T00:00:00.123456Z")
 T3 = tsfmt.instant_of("2018-01-01T00:00:00Z")
-PRIMS = [("int", 1), ("int", -1), ("int", 0), ("float", 1.5), ("float", -0.5), ("float", 1e-7), ("float", 1e22), ("float", 0.1), ("int", 2 ** 63), ("str", "a"), ("str", "it's"), ("str", "back\\slash"), ("str", "both\\'"), ("str", "ü😀"), ("str", ""),
+PRIMS = [("int", 1), ("int", -1), ("int", 0), ("float", 1.5), ("float", -0.5), ("float", 1e-7), ("float", 1e22), ("float", 0.1), ("int", 2 ** 63), ("float", 1.2345678e-12), ("float", 5e-324), ("float", 1.7976931348623157e308), ("float", 4.9e-18),
+         ("float", 2.220446049250313e-16), ("float", -1.2345678901234567e-5), ("str", "a"), ("str", "it's"), ("str", "back\\slash"), ("str", "both\\'"), ("str", "ü😀"), ("str", ""),
          ("str", "\\\\host\\share"), ("str", "line\nfeed\ttab"), ("bool", True), ("bool", False), ("hex", "ab"), ("bin", "YQ=="), ("ts", T1), ("ts", T2), ("ts", T1, "2017-01-01T00:00:00.000Z")]
 SETS = [("set", (("int", 1), ("int", 2))), ("set", (("str", "a"), ("str", "b'c"))), ("set", (("int", 1),)), ("set", (("ts", T1), ("ts", T3))),
         ("set", (("int", 1), ("str", "x"))), ("set", (("bool", True), ("int", 1), ("float", 1.5))), ("set", (("hex", "ab"), ("hex", "aa"))), ("set", (("str", "a"), ("ts", T1)))]
